@@ -3,12 +3,12 @@ package main
 // gofuncs_c19.go — decision functions of the consensus integration (C19) translated on every run; the equalities
 // with the hand-written models (Model/DbftEpoch.lean, Model/DbftMach.lean) are proved in
 // lean/NeoModel/Proofs/GoFuncs/C19Mach.lean. Not translatable today: service.newBlockFromContext (result type; with
-// Sink: "assignment to a non-local not found by the pre-scan"), DBFT.onTimeout (`x << 1` is rendered `2 ^ (1).toNat`,
-// which does not elaborate).
+// Sink: "assignment to a non-local not found by the pre-scan").
 func init() {
 	gfSpecs = append(gfSpecs,
 		gfSpec{Pkg: "./pkg/config", Recv: "ProtocolConfiguration", Func: "ShouldUpdateCommitteeAt", Lean: "c19ShouldUpdateCommitteeAt"},
 		gfSpec{Pkg: "./pkg/consensus", Recv: "service", Func: "validatePayload", Lean: "c19ValidatePayload"},
+		gfSpec{Pkg: "github.com/nspcc-dev/dbft", Recv: "DBFT", Func: "onTimeout", Lean: "c19OnTimeout"},
 		gfSpec{Pkg: "github.com/nspcc-dev/dbft", Recv: "DBFT", Func: "onChangeView", Lean: "c19OnChangeView"},
 		gfSpec{Pkg: "github.com/nspcc-dev/dbft", Recv: "DBFT", Func: "onRecoveryRequest", Lean: "c19OnRecoveryRequest"},
 		gfSpec{Pkg: "github.com/nspcc-dev/dbft", Recv: "Context", Func: "ViewChanging", Lean: "c19ViewChanging"},
